@@ -1,6 +1,7 @@
 package sim
 
 import (
+	"syscall"
 	"bufio"
 	"encoding/json"
 	"fmt"
@@ -31,6 +32,7 @@ func TestWorker(t *testing.T) {
 	}
 	debug.SetMaxStack(64 << 20)
 	raceWorkerInit()
+	limitMemory()
 	var out *os.File
 	if os.Getenv("VERIF_OUT") == "stdout" {
 		out = os.Stdout
@@ -77,32 +79,43 @@ func TestWorker(t *testing.T) {
 	}
 }
 
-// watchdog kills the worker when one episode takes more than 60 s of real time
-// (a goroutine spinning outside every hook). Exit status 3, never a violation.
+// watchdog kills the worker when one episode has burnt more than 20 s of CPU
+// time (a goroutine spinning outside every hook) or 300 s of wall time. CPU time
+// is used so that a loaded machine cannot trip it. Exit status 3.
 func watchdog(ch chan int, out *os.File) {
 	cur := -1
-	timer := time.NewTimer(time.Hour)
+	var cpu0 time.Duration
+	var wall0 time.Time
+	tick := time.NewTicker(time.Second)
 	for {
 		select {
 		case id := <-ch:
 			cur = id
-			if !timer.Stop() {
-				select {
-				case <-timer.C:
-				default:
-				}
-			}
-			if id >= 0 {
-				timer.Reset(60 * time.Second)
-			} else {
-				timer.Reset(time.Hour)
-			}
-		case <-timer.C:
-			if cur >= 0 {
+			cpu0, wall0 = cpuTime(), time.Now()
+		case <-tick.C:
+			if cur >= 0 && (cpuTime()-cpu0 > 20*time.Second || time.Since(wall0) > 300*time.Second) {
 				fmt.Fprintf(out, "WATCHDOG %d\n", cur)
 				os.Exit(3)
 			}
-			timer.Reset(time.Hour)
 		}
 	}
+}
+
+func cpuTime() time.Duration {
+	var ru syscall.Rusage
+	if err := syscall.Getrusage(syscall.RUSAGE_SELF, &ru); err != nil {
+		return 0
+	}
+	return time.Duration(ru.Utime.Nano() + ru.Stime.Nano())
+}
+
+// limitMemory caps the address space of a (non-race) worker: a script that makes
+// the interpreter allocate without bound then kills this worker with the
+// runtime's "out of memory" fatal error instead of the whole sandbox.
+func limitMemory() {
+	if RaceBuild {
+		return // the race runtime reserves terabytes of address space
+	}
+	lim := syscall.Rlimit{Cur: 6 << 30, Max: 6 << 30}
+	syscall.Setrlimit(syscall.RLIMIT_AS, &lim)
 }
